@@ -1,5 +1,5 @@
 (* Properties/C02.v — annotations reach exactly the ancestors; records stay direct (C02) *)
-From HpoV Require Import Gen.Consts Model.Base Model.Group Model.Onto Model.Dump Run.World Run.C02 Proofs.C02P Proofs.ClosureP Proofs.LinkP Proofs.RecordsP.
+From HpoV Require Import Gen.Consts Model.Base Model.Group Model.Onto Model.Dump Run.World Run.C02 Proofs.C02P Proofs.ClosureP Proofs.LinkP Proofs.RecordsP Proofs.GroupP Proofs.DistP Proofs.AnnotP.
 
 (* For every observation that passes the executable statement (evaluated by the check on the real
    crate's observation of every generated ontology, for each of the three kinds separately): *)
@@ -61,6 +61,25 @@ Theorem C02_model_annotate_is_one_propagation : forall k id name tid o o', b_ann
   link (link_fuel (o_arena o)) k (o_arena o) tid id = Ok (o_arena o').
 Proof. exact annotate_is_link. Qed.
 
+(* the hypotheses [good] of the propagation theorems above hold of every ontology with exact
+   ancestor caches (qgood: proved of every Builder-built ontology, C11_builder_ontologies_are_qgood)
+   whose is_a graph is acyclic and whose annotation sets are sorted *)
+Theorem C02_propagation_hypotheses_hold : forall k o, qgood o -> ranked (o_arena o) ->
+  (forall t, In t (ar_terms (o_arena o)) -> sorted (t_annots k t)) -> good k (o_arena o).
+Proof. exact qgood_good. Qed.
+
+(* all records of one kind loaded into an ontology that carries none of that kind yet: every term
+   ends up with exactly the ids that have a direct fact at the term or at one of its descendants *)
+Theorem C02_model_record_phase : forall k o rs o', qgood o -> ranked (o_arena o) ->
+  (forall t, In t (ar_terms (o_arena o)) -> t_annots k t = []) ->
+  foldM (SectionP.load_record k) rs o = Ok o' ->
+  frame k (o_arena o) (o_arena o') /\
+  forall t', In t' (ar_terms (o_arena o')) ->
+    sorted (t_annots k t') /\
+    forall x, In x (t_annots k t') <->
+      exists r, In r rs /\ a_id r = x /\ exists d, In d (a_hpos r) /\ (t_id t' = d \/ In (t_id t') (allp_of (o_arena o) d)).
+Proof. exact phase_spec. Qed.
+
 Print Assumptions C02_inherited_exact.
 Print Assumptions C02_records_wellformed.
 Print Assumptions C02_linked_ids_resolve.
@@ -69,3 +88,5 @@ Print Assumptions C02_model_inherited_exact.
 Print Assumptions C02_model_kinds_framed.
 Print Assumptions C02_model_records_stay_direct.
 Print Assumptions C02_model_annotate_is_one_propagation.
+Print Assumptions C02_propagation_hypotheses_hold.
+Print Assumptions C02_model_record_phase.
